@@ -18,7 +18,7 @@ package boltz
 //@   ensures[proceed-iff] result == (bucket.Err == nil && (checker == nil || fcUpd(checker, name)))
 
 // setTyped: the value stored under name is the tag byte followed by the bytes; nil is the tag TypeNil alone
-//@ spec nilEnc() Str = (prepend 5 str_empty)
+//@ spec nilEnc() Str = (prepend 7 str_empty)
 //@ func (*TypedBucket).setTyped
 //@   props C13
 //@   assume bucket.ErrorHolderImpl != nil && bucket.Bucket != nil
